@@ -54,6 +54,24 @@ func c05Inputs() []c05Input {
 		}
 		out = append(out, c05Input{Name: fmt.Sprintf("ties=%v,unresolved=%v,days3=%v,deepchain=%v", ties, unres, days3, deep), Book: renderBook(book), Log: renderLog(lg), Extra: extra})
 	}
+	// recipe graphs at the depth limit: chain, fork (deep branch listed first / last), diamond; the
+	// limit is the longest chain (rejected) or one more (accepted) - on every visiting order
+	shapes := []struct {
+		name string
+		book absBook
+		h    int
+	}{
+		{"fork-deep-first", absBook{{"menu", []absIng{{"lasagna", 1}, {"salad", 1}}}, {"lasagna", []absIng{{"ragu", 2}}}, {"ragu", []absIng{{"cal", 3}}}, {"salad", []absIng{{"fat", 1}}}}, 3},
+		{"fork-deep-last", absBook{{"menu", []absIng{{"salad", 1}, {"lasagna", 1}}}, {"lasagna", []absIng{{"ragu", 2}}}, {"ragu", []absIng{{"cal", 3}}}, {"salad", []absIng{{"fat", 1}}}}, 3},
+		{"diamond", absBook{{"top", []absIng{{"left", 1}, {"right", 2}}}, {"left", []absIng{{"base", 1}}}, {"right", []absIng{{"base", 2}, {"fat", 1}}}, {"base", []absIng{{"cal", 1}}}}, 3},
+		{"two-chains", absBook{{"a1", []absIng{{"a2", 1}}}, {"a2", []absIng{{"a3", 1}}}, {"a3", []absIng{{"cal", 1}}}, {"b1", []absIng{{"b2", 1}, {"a3", 1}}}, {"b2", []absIng{{"fat", 1}}}}, 3},
+	}
+	for _, sh := range shapes {
+		for _, extraDepth := range []int{0, 1} {
+			lg := absLog{{Date: "2021/01/24", Entries: []absIng{{sh.book[0].Name, 1}, {"u1", 2}}}, {Date: "2021/01/25", Entries: []absIng{{sh.book[1].Name, 2}, {"u2", 2}}}}
+			out = append(out, c05Input{Name: fmt.Sprintf("%s,maxdepth=longest-chain+%d", sh.name, extraDepth), Book: renderBook(sh.book), Log: renderLog(lg), Extra: []string{"--maxdepth", fmt.Sprint(sh.h + extraDepth)}})
+		}
+	}
 	return out
 }
 
@@ -77,6 +95,7 @@ func checkC05(w *Worker) {
 	}
 	confirmed := 0
 	w.Explore("maporder", ExploreOpts{ShardDepth: 2, Budgets: map[string]int{"env:maporder": dev}}, func(x *Exec) {
+		x.NoConfirm = true // order-dependent outcomes: confirmed below by repeated runs of the real binary
 		ii := x.Choose(len(inputs), "input:input")
 		ci := x.Choose(len(c05Cmds), "input:command")
 		policy := x.Choose(4, "input:policy") // 0: explorer-chosen single deviations; 1..3: persistent policies at every visit
@@ -85,13 +104,15 @@ func checkC05(w *Worker) {
 		args = append(args, c05Cmds[ci]...)
 		c := appCase{Args: args, Files: map[string]string{"food.yaml": in.Book, "log.yaml": in.Log}}
 		key := fmt.Sprintf("%d|%d", ii, ci)
+		cs := c
+		cs.SortedMaps = true
 		base, ok := baseCache[key]
 		if !ok {
 			verifshim.PermHook = nil
-			cs := c
-			cs.SortedMaps = true
 			base = runApp(cs)
 			baseCache[key] = base
+		} else {
+			logRun(cs, base)
 		}
 		var visits *[]mapVisit
 		policyName := "single-visit deviations"
